@@ -282,7 +282,13 @@ func (h harness) seq(r *vx.Run, workers int) *vx.Seq[*sys] {
 				bs = bounds[:1]
 			}
 			for i := range s.roots {
-				if f := s.battery(i, h.keys, bs, true); f != "" {
+				b := bs
+				if i < len(s.roots)-1 {
+					// older roots: every point read and both unbounded scans (every key and value of the
+					// version is visited); the full (start,end) battery ran when the root was the newest
+					b = bounds[:1]
+				}
+				if f := s.battery(i, h.keys, b, true); f != "" {
 					if pass == 1 {
 						f = strings.Replace(f, "|", "-after-restart|", 1)
 					}
